@@ -37,6 +37,9 @@ def renameTarget (pairs : List (String × String)) (n : String) : String :=
   | some m => m
   | none => n
 
+/-- exchange `a` and `b` -/
+def swapName (a b n : String) : String := if n = a then b else if n = b then a else n
+
 /-- The meaning of an import-set term, given the export list of every library. -/
 def denote : ImportSet → (LibName → Option Bindings) → Option Bindings
   | .direct name _, ex => ex name
